@@ -120,8 +120,8 @@ theorem unknownCSILen_bound {b : Bytes} {n : Nat} (h : unknownCSILen b = some n)
     · cases h
   · cases h
 
-theorem runeLoop_bound (alt : Bool) : ∀ (fuel : Nat) (b : Bytes) (i : Nat) (acc : List Nat),
-    i ≤ b.length → (runeLoop alt fuel b i acc).1 ≤ b.length ∧ i ≤ (runeLoop alt fuel b i acc).1 := by
+theorem runeLoop_bound (alt more : Bool) : ∀ (fuel : Nat) (b : Bytes) (i : Nat) (acc : List Nat),
+    i ≤ b.length → (runeLoop alt more fuel b i acc).1 ≤ b.length ∧ i ≤ (runeLoop alt more fuel b i acc).1 := by
   intro fuel
   induction fuel with
   | zero => intro b i acc h; simp [runeLoop, h]
@@ -142,14 +142,16 @@ theorem runeLoop_bound (alt : Bool) : ∀ (fuel : Nat) (b : Bytes) (i : Nat) (ac
       split
       · simp [h]
       · split
-        · simp; omega
-        · have := ih b (i + rw) (r :: acc) (by omega)
-          omega
+        · simp [h]
+        · split
+          · simp; omega
+          · have := ih b (i + rw) (r :: acc) (by omega)
+            omega
     · simp [h]
 
-theorem runeLoop_adv (alt : Bool) : ∀ (fuel : Nat) (b : Bytes) (i : Nat) (acc : List Nat),
+theorem runeLoop_adv (alt more : Bool) : ∀ (fuel : Nat) (b : Bytes) (i : Nat) (acc : List Nat),
     i ≤ b.length →
-    ((runeLoop alt fuel b i acc).2.length = acc.length ∨ i < (runeLoop alt fuel b i acc).1) := by
+    ((runeLoop alt more fuel b i acc).2.1.length = acc.length ∨ i < (runeLoop alt more fuel b i acc).1) := by
   intro fuel
   induction fuel with
   | zero => intro b i acc h; simp [runeLoop]
@@ -171,20 +173,36 @@ theorem runeLoop_adv (alt : Bool) : ∀ (fuel : Nat) (b : Bytes) (i : Nat) (acc 
       split
       · simp
       · split
-        · right; simp; omega
-        · right
-          have := (runeLoop_bound alt f b (i + rw) (r :: acc) (by omega)).2
-          omega
+        · simp
+        · split
+          · right; simp; omega
+          · right
+            have := (runeLoop_bound alt more f b (i + rw) (r :: acc) (by omega)).2
+            omega
     · simp
 
-theorem runeLoop_pos_of_runes {alt : Bool} {fuel : Nat} {b : Bytes} {i0 i : Nat} {runes : List Nat}
-    (hi0 : i0 ≤ b.length)
-    (h : runeLoop alt fuel b i0 [] = (i, runes)) (hr : runes.length > 0) : ¬ i = 0 := by
-  have := runeLoop_adv alt fuel b i0 [] hi0
-  rw [h] at this
-  simp at this
-  rcases this with h1 | h1
-  · subst h1; simp at hr
-  · omega
+theorem runeLoop_incomplete_more (alt more : Bool) : ∀ (fuel : Nat) (b : Bytes) (i : Nat) (acc : List Nat),
+    (runeLoop alt more fuel b i acc).2.2 = true → more = true := by
+  intro fuel
+  induction fuel with
+  | zero => intro b i acc h; simp [runeLoop] at h
+  | succ f ih =>
+    intro b i acc
+    simp only [runeLoop]
+    split
+    · generalize decodeRune (b.drop i) = dr
+      obtain ⟨r, rw⟩ := dr
+      simp only
+      split
+      · rename_i hc
+        intro _
+        simp only [Bool.and_eq_true] at hc
+        exact hc.1.2
+      · split
+        · intro h; simp at h
+        · split
+          · intro h; simp at h
+          · exact ih b (i + rw) (r :: acc)
+    · intro h; simp at h
 
 end Tea.Input
